@@ -114,10 +114,10 @@ E2_EXTRA = (" Small families are additionally run (a) after each of 12 primer ca
             "thread-local and pooled state), (b) built through 7 construction routes (edges first under Create then nodes re-added, reverse().reverse() / "
             "get_subgraph(all), new_from_nodes_and_edges, shared Arc objects, KeepLast/KeepFirst+Create+Drop specs), (c) as query -> mutate in place -> query "
             "histories with 6 mutations on the same Graph object, and where the oracle is scale-free (d) with exact power-of-two weights around 2^-60 and 2^60.")
-E1_EXTRA = " One further stage repeats the exploration with equal edge specifications being one shared Arc<Edge> object (alphabet suffix @alias)."
+E1_EXTRA = " One further stage repeats the exploration with equal edge specifications being one shared Arc<Edge> object (alphabet suffix @alias); batch calls are applied from every shallow state and the object each batch call leaves behind (also after a failing element) gets the state oracle."
 for pid in ["C04", "C05", "C06", "C08", "C10", "C11", "C12", "C13", "C18", "C20"]:
     CHECKS[pid]["text"] += E2_EXTRA
-for pid in ["C01", "C02", "C09", "C15"]:
+for pid in ["C01", "C02", "C03", "C09", "C15"]:
     CHECKS[pid]["text"] += E1_EXTRA
 CHECKS["C13"]["text"] += " Medium inputs (6-12 nodes) include nearly equal weights 1, 1+eps, 1+2eps; large inputs have 130-2200 edges."
 CHECKS["C17"]["text"] += " Also: the input re-derived by get_subgraph / reverse().reverse() inside every hash-key environment, and medium graphs with nearly equal weights (around 1 and, scaled by 2^53, whole numbers whose sums round) free-running under several hash-key environments."
